@@ -1077,6 +1077,17 @@ func (c *child) queueLiveness(s segment) {
 // shrinks the watchdog is kept quiet, for at most 20 minutes: a queue that never drains is still reported.
 func (c *child) drain(s segment) {
 	ne := c.env.nets[s.Net]
+	// The sender identities of the direct handler calls do not exist on the fabric (and one live peer has no endpoint
+	// in its record), yet the node holds them as table entries since their "requests", with thousands of record
+	// requests queued for each of them at one response timeout apiece. A lookup that includes such an entry waits for
+	// its own query to reach the head of that queue - minutes, charged to the lookup's case. They leave the table the
+	// way a user removes a node (DeleteEnr); what is queued for them drains in the background.
+	api := portalwire.NewPortalAPI(ne.node.P)
+	for _, n := range append(append([]*enode.Node{}, c.env.senders...), c.env.noEP.Self()) {
+		if ok, _ := api.DeleteEnr(n.ID().String()); ok {
+			c.count("unreachable_sender_identities_removed_from_the_table_before_node_originated_calls", 1)
+		}
+	}
 	t0 := time.Now()
 	var wg sync.WaitGroup
 	for _, adv := range c.env.advs {
